@@ -427,6 +427,7 @@ def explain(form, attrs, vals, mode, expect, rb, rh):
         return ["assoc_key_close_bracket"]
     if form == "tr" and vals and "'" in vals[0]:
         return ["trap_p_unescaped_single_quote"]
+    # tripwire: repaired in /repo (export -p prints all attribute flags); the entry is `fixed`, so a recurrence is a VIOLATION
     if form == "ex" and canon_attrs(attrs + "x") != "x" and rb == rh and \
             rb == expect.replace("V %s " % canon_attrs(attrs + "x"), "V x ", 1):
         return ["export_p_drops_attributes"]
